@@ -250,9 +250,12 @@ def seq_alphabet(name):
                 ops.append(('slice', t, a, b, OTHER[t]))    # other = t[a:b]; t stays alive
             ops.append(('slice', t, 0, 1, t))
             ops.append(('slice', t, 1, 3, OTHER[t]))
+            ops.append(('slice', t, None, None, t, -1))          # t = t[::-1]  (same length, other order)
+            ops.append(('slice', t, None, None, OTHER[t], 2))    # other = t[::2]
         else:
             ops.append(('slice', t, 1, None, t))
             ops.append(('slice', t, None, -1, OTHER[t]))
+            ops.append(('slice', t, None, None, OTHER[t], -1))   # other = t[::-1]
     for t in 'AB':
         if wide:
             ops.append(('index', t))
@@ -330,18 +333,19 @@ class SeqState(object):
                 changed = t
             elif kind == 'slice':
                 a, b, dest = op[2], op[3], op[4]
+                c = op[5] if len(op) > 5 else None
                 src = real[t]
                 if judge:
                     readonly = {s: deep(real[s]) for s in 'AB'}
-                res = src[a:b]
-                want = ref[t].slice(a, b)
+                res = src[a:b:c]
+                want = ref[t].slice(a, b, c)
                 if judge:
-                    msgs += compare(res, want, '%s[%r:%r]' % (t, a, b))
+                    msgs += compare(res, want, '%s[%r:%r:%r]' % (t, a, b, c))
                     if res is src:
-                        msgs.append(('slice_identity', '%s[%r:%r] returned the monitor itself' % (t, a, b)))
+                        msgs.append(('slice_identity', '%s[%r:%r:%r] returned the monitor itself' % (t, a, b, c)))
                     if res.k != src.k:
-                        msgs.append(('slice_k', '%s[%r:%r].k = %r, source k = %r' % (t, a, b, res.k, src.k)))
-                    msgs += self._unchanged(readonly, '%s[%r:%r]' % (t, a, b))
+                        msgs.append(('slice_k', '%s[%r:%r:%r].k = %r, source k = %r' % (t, a, b, c, res.k, src.k)))
+                    msgs += self._unchanged(readonly, '%s[%r:%r:%r]' % (t, a, b, c))
                     readonly = {}
                 real[dest], ref[dest] = res, want
                 label = 'slice:%s' % ('nonempty' if len(want) else 'empty')
